@@ -47,7 +47,46 @@ JudgeBars(e) ==
   ELSE IF \E j \in 1..N : ~RClose(RFromFx(e.xs[j]), RFromInt(j)) THEN "bar-positions"
   ELSE IF \E j \in 1..N : ~RClose(RFromFx(e.heights[j]), QR(StatProfile(e.stat, e.seq, e.w)[j])) THEN "bar-heights"
   ELSE OK
-Judge(e) == IF e.q = "figure" THEN JudgeFigure(e) ELSE IF e.q = "bars" THEN JudgeBars(e) ELSE "machinery:unknown-event"
+\* complexity plots (show_/save_linearComplexity): one bar per *window* of the complexity profile, at the profile's position row
+\* and with its values (e.pos / e.prof: what get_linear_complexity returned for the same arguments), the window count of
+\* Geometry, the type's title, the axes spanning the chain and [0,1], the figure returned when asked for
+ComplexityTitle(ty) == IF ty = "WF" THEN "Wooton-Federhen complexity" ELSE IF ty = "LC" THEN "Linguistic complexity" ELSE "Lempel-Ziv-Welch complexity"
+JudgeCBars(e) ==
+  LET N == Len(e.seq)
+      K == NumWindows(N, e.w, e.s) IN
+  IF e.exc THEN "plot-call-failed"
+  ELSE IF e.getfig # e.returned THEN "figure-not-returned-when-getFig-is-set"
+  ELSE IF Len(e.pos) # K \/ Len(e.prof) # K THEN "machinery:complexity-profile-window-count"
+  ELSE IF Len(e.heights) # K \/ Len(e.xs) # K THEN "one-bar-per-window"
+  ELSE IF \E j \in 1..K : ~RClose(RFromFx(e.xs[j]), RFromFx(e.pos[j])) THEN "bar-positions"
+  ELSE IF \E j \in 1..K : ~RClose(RFromFx(e.heights[j]), RFromFx(e.prof[j])) THEN "bar-heights"
+  ELSE IF e.title # ComplexityTitle(e.ctype) THEN "title"
+  ELSE IF ~(RClose(RFromFx(e.xlim[1]), ROne) /\ RClose(RFromFx(e.xlim[2]), RFromInt(N))
+            /\ RClose(RFromFx(e.ylim[1]), RZero) /\ RClose(RFromFx(e.ylim[2]), ROne)) THEN "axis-limits"
+  ELSE IF e.saved /\ ~e.fileok THEN "saved-file"
+  ELSE OK
+\* composition plot (save_linearComposition): one smoothed curve per standard group over residues 1..N and, with
+\* plot_data set, the raw density profile of that group under it (the spline's ordinates are numerics of scipy and are
+\* not judged; the raw curves are the documented profile of C10)
+JudgeLines(e) ==
+  LET N == Len(e.seq)
+      G == Len(DefaultGroups)
+      raw(g) == IF e.plotdata THEN e.lines[2 * g - 1] ELSE <<>>
+      smooth(g) == IF e.plotdata THEN e.lines[2 * g] ELSE e.lines[g]
+      xsOK(ln) == Len(ln.x) = N /\ \A j \in 1..N : RClose(RFromFx(ln.x[j]), RFromInt(j)) IN
+  IF e.exc THEN "plot-call-failed"
+  ELSE IF Len(e.lines) # (IF e.plotdata THEN 2 * G ELSE G) THEN "one-curve-per-group"
+  ELSE IF \E g \in 1..G : ~xsOK(smooth(g)) \/ (e.plotdata /\ ~xsOK(raw(g))) THEN "curve-positions"
+  ELSE IF e.plotdata /\ \E g \in 1..G : \/ Len(raw(g).y) # N
+                                         \/ \E j \in 1..N : ~RClose(RFromFx(raw(g).y[j]), QR(GroupProfile(e.seq, e.w, DefaultGroups[g])[j]))
+       THEN "raw-curve-heights"
+  ELSE IF \E g \in 1..G : smooth(g).label # e.wantnames[g] \/ smooth(g).color # e.wantcolors[g] THEN "curve-legend"
+  ELSE IF e.title # e.wanttitle THEN "title"
+  ELSE IF ~(RClose(RFromFx(e.xlim[1]), ROne) /\ RClose(RFromFx(e.xlim[2]), RFromInt(N)) /\ RClose(RFromFx(e.ylim[1]), RZero)) THEN "axis-limits"
+  ELSE IF ~e.fileok THEN "saved-file"
+  ELSE OK
+Judge(e) == IF e.q = "figure" THEN JudgeFigure(e) ELSE IF e.q = "bars" THEN JudgeBars(e)
+            ELSE IF e.q = "cbars" THEN JudgeCBars(e) ELSE IF e.q = "lines" THEN JudgeLines(e) ELSE "machinery:unknown-event"
 
 Tr == Traces[t]
 Init == t \in 1..Len(Traces) /\ l = 0 /\ verdict = <<"run">>
